@@ -238,6 +238,9 @@ func init() {
 					rem = append(rem, i)
 				}
 			}
+			if t%12 == 9 { // a tree nothing was ever added to: the first thing that happens to it is being asked
+				pts, npts, rem = nil, 0, nil
+			}
 			sort.Ints(rem)
 			setCurrent("quadtree(concurrent)", pts)
 			q, _, ok := qtBuild(c, shard, 0, 1024, pts, rem)
@@ -252,7 +255,7 @@ func init() {
 			}
 			plans := make([]plan, ng)
 			for g := range plans {
-				qs := &qtQueries{ks: []int{1, 3, 8}, mds: []int{0, 300}, filters: [][2]int{{1, 0}, {2, g % 2}}, rev: g%3 == 1} // some goroutines ask the filtered questions first
+				qs := &qtQueries{ks: []int{1, 3, 8}, mds: []int{0, 300, 5000}, filters: [][2]int{{1, 0}, {2, g % 2}}, rev: g%3 == 1} // some goroutines ask the filtered questions first
 				for i := 0; i < 6; i++ {
 					qs.pts = append(qs.pts, [2]int{c.rng.Intn(1025), c.rng.Intn(1025)})
 				}
